@@ -21,11 +21,16 @@ import (
 // bytesChild is the trivial child handler used to drive val.AdaptiveEncodingTypeHandler.SerializedCompare.
 type bytesChild struct{}
 
-func (bytesChild) SerializedCompare(_ context.Context, a, b []byte) (int, error) { return bytes.Compare(a, b), nil }
-func (bytesChild) SerializeValue(_ context.Context, v any) ([]byte, error)        { return v.([]byte), nil }
-func (bytesChild) DeserializeValue(_ context.Context, b []byte) (any, error)      { return b, nil }
-func (bytesChild) FormatValue(v any) (string, error)                              { return fmt.Sprint(v), nil }
-func (bytesChild) SerializationCompatible(o val.TupleTypeHandler) bool            { _, ok := o.(bytesChild); return ok }
+func (bytesChild) SerializedCompare(_ context.Context, a, b []byte) (int, error) {
+	return bytes.Compare(a, b), nil
+}
+func (bytesChild) SerializeValue(_ context.Context, v any) ([]byte, error)   { return v.([]byte), nil }
+func (bytesChild) DeserializeValue(_ context.Context, b []byte) (any, error) { return b, nil }
+func (bytesChild) FormatValue(v any) (string, error)                         { return fmt.Sprint(v), nil }
+func (bytesChild) SerializationCompatible(o val.TupleTypeHandler) bool {
+	_, ok := o.(bytesChild)
+	return ok
+}
 func (bytesChild) ConvertSerialized(_ context.Context, _ val.TupleTypeHandler, b []byte) ([]byte, error) {
 	return b, nil
 }
@@ -81,20 +86,21 @@ func (x *c16Run) tuples(v c16Value, idx int) {
 		}
 		return nil, "?", fmt.Errorf("unexpected type %T", v)
 	}
+	ai, fx := 1, 4 // index of the adaptive column, bytes of the fixed columns in front of it
 	kinds := []adaptive{
 		{"bytes", val.BytesAdaptiveEnc,
-			func(tb *val.TupleBuilder) error { return tb.PutAdaptiveBytesFromInline(bg, 1, v.b) },
+			func(tb *val.TupleBuilder) error { return tb.PutAdaptiveBytesFromInline(bg, ai, v.b) },
 			func(td *val.TupleDesc, t val.Tuple) ([]byte, string, error) {
-				g, _, err := td.GetBytesAdaptiveValue(bg, 1, x.ns, t)
+				g, _, err := td.GetBytesAdaptiveValue(bg, ai, x.ns, t)
 				if err != nil {
 					return nil, "", err
 				}
 				return unwrapB(g)
 			}},
 		{"string", val.StringAdaptiveEnc,
-			func(tb *val.TupleBuilder) error { return tb.PutAdaptiveStringFromInline(bg, 1, string(v.b)) },
+			func(tb *val.TupleBuilder) error { return tb.PutAdaptiveStringFromInline(bg, ai, string(v.b)) },
 			func(td *val.TupleDesc, t val.Tuple) ([]byte, string, error) {
-				g, _, err := td.GetStringAdaptiveValue(bg, 1, x.ns, t)
+				g, _, err := td.GetStringAdaptiveValue(bg, ai, x.ns, t)
 				if err != nil {
 					return nil, "", err
 				}
@@ -106,120 +112,130 @@ func (x *c16Run) tuples(v c16Value, idx int) {
 			continue
 		}
 		for _, k := range kinds {
-			td := val.NewTupleDescriptor(val.Type{Enc: val.Int32Enc}, val.Type{Enc: k.enc, Nullable: true})
-			newTB := func() *val.TupleBuilder {
-				tb := val.NewTupleBuilder(td, x.ns)
-				if target != val.DefaultTupleLengthTarget {
-					tb = tb.WithMaxRowSize(target)
+			for _, withFixed := range []bool{true, false} {
+				// with and without a fixed-width column in front: alone, the adaptive column meets the target exactly at len+1
+				td := val.NewTupleDescriptor(val.Type{Enc: val.Int32Enc}, val.Type{Enc: k.enc, Nullable: true})
+				ai, fx = 1, 4
+				if !withFixed {
+					td = val.NewTupleDescriptor(val.Type{Enc: k.enc, Nullable: true})
+					ai, fx = 0, 0
 				}
-				tb.PutInt32(0, 7)
-				return tb
-			}
-			tb := newTB()
-			rig.Must(k.put(tb))
-			t0, err := tb.Build(bg, x.pool)
-			rig.Must(err)
-			c.Count("c16.adaptive_tuples", 1)
-			field := td.GetField(1, t0)
-			isInline := val.IsInlineAdaptiveBytes(field)
-			// the documented switch point: a row whose fields need more than the target goes out of band
-			fits := 4+n+1 <= int(target)
-			saves := n+1 > 21+3 // an address (varint + 20 bytes) must be shorter than the inline form
-			if !saves && !isInline {
-				x.lim.Violation("c16/threshold/"+k.name, "a value shorter than an address was stored out of band", map[string]any{"size": n, "target": target})
-			}
-			if saves && isInline != fits {
-				x.lim.Violation("c16/threshold/"+k.name, "inline/out-of-band decision is not at the row-size target",
-					map[string]any{"size": n, "target": target, "inline": isInline, "row_bytes_if_inline": 4 + n + 1})
-			}
-			if n+5 >= int(target)-2 && n+5 <= int(target)+2 {
-				c.Count("c16.values_at_threshold", 1)
-			}
-			if isInline {
-				c.Count("c16.stored_inline", 1)
-			} else {
-				c.Count("c16.stored_out_of_band", 1)
-			}
-			// read back through the three decoders
-			got, form, err := k.read(td, t0)
-			if err != nil || !bytes.Equal(got, v.b) || (form == "inline") != isInline {
-				x.lim.Violation("c16/readback/adaptive-"+k.name, "adaptive field does not read back the written value",
-					map[string]any{"size": n, "kind": v.kind, "target": target, "form": form, "err": fmt.Sprint(err), "got": clip(got)})
-			}
-			gf, err := tree.GetField(bg, td, 1, t0, x.ns)
-			if err == nil {
-				got, _, err = unwrapB(gf)
-			}
-			if err != nil || !bytes.Equal(got, v.b) {
-				x.lim.Violation("c16/readback/getfield-"+k.name, "tree.GetField does not read back the written value",
-					map[string]any{"size": n, "kind": v.kind, "target": target, "err": fmt.Sprint(err), "got": clip(got)})
-			}
-			sv, err := tree.GetFieldValue(bg, td, 1, t0, x.ns)
-			if err == nil {
-				if sv.WrappedVal != nil {
-					var u any
-					u, err = sv.WrappedVal.UnwrapAny(bg)
-					if err == nil {
-						got, _, err = unwrapB(u)
+				newTB := func() *val.TupleBuilder {
+					tb := val.NewTupleBuilder(td, x.ns)
+					if target != val.DefaultTupleLengthTarget {
+						tb = tb.WithMaxRowSize(target)
 					}
-				} else {
-					got = sv.Val
+					if withFixed {
+						tb.PutInt32(0, 7)
+					}
+					return tb
 				}
-			}
-			if err != nil || !bytes.Equal(got, v.b) {
-				x.lim.Violation("c16/readback/getfieldvalue-"+k.name, "tree.GetFieldValue does not read back the written value",
-					map[string]any{"size": n, "kind": v.kind, "target": target, "err": fmt.Sprint(err), "got": clip(got)})
-			}
-			c.Count("c16.readbacks", 3)
+				tb := newTB()
+				rig.Must(k.put(tb))
+				t0, err := tb.Build(bg, x.pool)
+				rig.Must(err)
+				c.Count("c16.adaptive_tuples", 1)
+				field := td.GetField(ai, t0)
+				isInline := val.IsInlineAdaptiveBytes(field)
+				// the documented switch point: a row whose fields need more than the target goes out of band
+				fits := fx+n+1 <= int(target)
+				saves := n+1 > 21+3 // an address (varint + 20 bytes) must be shorter than the inline form
+				if !saves && !isInline {
+					x.lim.Violation("c16/threshold/"+k.name, "a value shorter than an address was stored out of band", map[string]any{"size": n, "target": target})
+				}
+				if saves && isInline != fits {
+					x.lim.Violation("c16/threshold/"+k.name, "inline/out-of-band decision is not at the row-size target",
+						map[string]any{"size": n, "target": target, "inline": isInline, "row_bytes_if_inline": fx + n + 1, "fixed_columns_bytes": fx})
+				}
+				if n+1+fx >= int(target)-2 && n+1+fx <= int(target)+2 {
+					c.Count("c16.values_at_threshold", 1)
+				}
+				if isInline {
+					c.Count("c16.stored_inline", 1)
+				} else {
+					c.Count("c16.stored_out_of_band", 1)
+				}
+				// read back through the three decoders
+				got, form, err := k.read(td, t0)
+				if err != nil || !bytes.Equal(got, v.b) || (form == "inline") != isInline {
+					x.lim.Violation("c16/readback/adaptive-"+k.name, "adaptive field does not read back the written value",
+						map[string]any{"size": n, "kind": v.kind, "target": target, "form": form, "err": fmt.Sprint(err), "got": clip(got)})
+				}
+				gf, err := tree.GetField(bg, td, ai, t0, x.ns)
+				if err == nil {
+					got, _, err = unwrapB(gf)
+				}
+				if err != nil || !bytes.Equal(got, v.b) {
+					x.lim.Violation("c16/readback/getfield-"+k.name, "tree.GetField does not read back the written value",
+						map[string]any{"size": n, "kind": v.kind, "target": target, "err": fmt.Sprint(err), "got": clip(got)})
+				}
+				sv, err := tree.GetFieldValue(bg, td, ai, t0, x.ns)
+				if err == nil {
+					if sv.WrappedVal != nil {
+						var u any
+						u, err = sv.WrappedVal.UnwrapAny(bg)
+						if err == nil {
+							got, _, err = unwrapB(u)
+						}
+					} else {
+						got = sv.Val
+					}
+				}
+				if err != nil || !bytes.Equal(got, v.b) {
+					x.lim.Violation("c16/readback/getfieldvalue-"+k.name, "tree.GetFieldValue does not read back the written value",
+						map[string]any{"size": n, "kind": v.kind, "target": target, "err": fmt.Sprint(err), "got": clip(got)})
+				}
+				c.Count("c16.readbacks", 3)
 
-			// other construction routes for the same row
-			routes := map[string]val.Tuple{}
-			if n <= c16MaxInline {
-				tb := newTB()
-				tb.PutRaw(1, val.AdaptiveValueInlineBytes(v.b))
-				t, err := tb.Build(bg, x.pool)
-				rig.Must(err)
-				routes["putraw-inline-form"] = t
-			}
-			{ // tree.PutField with the plain Go value
-				tb := newTB()
-				if k.enc == val.BytesAdaptiveEnc {
-					rig.Must(tree.PutField(bg, x.ns, tb, 1, v.b))
-				} else {
-					rig.Must(tree.PutField(bg, x.ns, tb, 1, string(v.b)))
-				}
-				t, err := tb.Build(bg, x.pool)
-				rig.Must(err)
-				routes["putfield-plain"] = t
-			}
-			if n >= 1 { // tree.PutField with the wrapper read from an address column / another row (INSERT ... SELECT)
-				h, err := x.ns.WriteBytes(bg, v.b)
-				rig.Must(err)
-				tb := newTB()
-				if k.enc == val.BytesAdaptiveEnc {
-					rig.Must(tree.PutField(bg, x.ns, tb, 1, val.NewByteArray(h, x.ns)))
-				} else {
-					rig.Must(tree.PutField(bg, x.ns, tb, 1, val.NewTextStorage(h, x.ns)))
-				}
-				t, err := tb.Build(bg, x.pool)
-				rig.Must(err)
-				routes["putfield-wrapper"] = t
-				if !isInline {
-					// ... and the wrapper decoded from this very tuple
-					gf, err := tree.GetField(bg, td, 1, t0, x.ns)
-					rig.Must(err)
+				// other construction routes for the same row
+				routes := map[string]val.Tuple{}
+				if n <= c16MaxInline {
 					tb := newTB()
-					rig.Must(tree.PutField(bg, x.ns, tb, 1, gf))
+					tb.PutRaw(ai, val.AdaptiveValueInlineBytes(v.b))
 					t, err := tb.Build(bg, x.pool)
 					rig.Must(err)
-					routes["putfield-wrapper-from-tuple"] = t
+					routes["putraw-inline-form"] = t
 				}
-			}
-			for name, t := range routes {
-				c.Count("c16.tuple_route_checks", 1)
-				if !bytes.Equal(t, t0) {
-					x.lim.Violation("c16/tuple-route/"+k.name+"/"+name, "the same row built through two routes is not byte-identical",
-						map[string]any{"size": n, "kind": v.kind, "target": target, "from-inline": clip(t0), name: clip(t)})
+				{ // tree.PutField with the plain Go value
+					tb := newTB()
+					if k.enc == val.BytesAdaptiveEnc {
+						rig.Must(tree.PutField(bg, x.ns, tb, ai, v.b))
+					} else {
+						rig.Must(tree.PutField(bg, x.ns, tb, ai, string(v.b)))
+					}
+					t, err := tb.Build(bg, x.pool)
+					rig.Must(err)
+					routes["putfield-plain"] = t
+				}
+				if n >= 1 { // tree.PutField with the wrapper read from an address column / another row (INSERT ... SELECT)
+					h, err := x.ns.WriteBytes(bg, v.b)
+					rig.Must(err)
+					tb := newTB()
+					if k.enc == val.BytesAdaptiveEnc {
+						rig.Must(tree.PutField(bg, x.ns, tb, ai, val.NewByteArray(h, x.ns)))
+					} else {
+						rig.Must(tree.PutField(bg, x.ns, tb, ai, val.NewTextStorage(h, x.ns)))
+					}
+					t, err := tb.Build(bg, x.pool)
+					rig.Must(err)
+					routes["putfield-wrapper"] = t
+					if !isInline {
+						// ... and the wrapper decoded from this very tuple
+						gf, err := tree.GetField(bg, td, ai, t0, x.ns)
+						rig.Must(err)
+						tb := newTB()
+						rig.Must(tree.PutField(bg, x.ns, tb, ai, gf))
+						t, err := tb.Build(bg, x.pool)
+						rig.Must(err)
+						routes["putfield-wrapper-from-tuple"] = t
+					}
+				}
+				for name, t := range routes {
+					c.Count("c16.tuple_route_checks", 1)
+					if !bytes.Equal(t, t0) {
+						x.lim.Violation("c16/tuple-route/"+k.name+"/"+name, "the same row built through two routes is not byte-identical",
+							map[string]any{"size": n, "kind": v.kind, "target": target, "from-inline": clip(t0), name: clip(t)})
+					}
 				}
 			}
 		}
